@@ -222,6 +222,10 @@ func (maps *trackedMaps) processUnfiltered(ctx context.Context, ef *Filter, filt
 					return fmt.Errorf("%s: unable to filter wrappers string value: %w", op, err)
 				}
 				vv := reflect.ValueOf(wrapperspb.StringValue{Value: s})
+				if fPtr {
+					// the map holds a pointer to the wrapper: keep it a pointer
+					vv = reflect.ValueOf(&wrapperspb.StringValue{Value: s})
+				}
 				v.SetMapIndex(key, vv)
 
 			case ftype == reflect.TypeOf(wrapperspb.BytesValue{}):
@@ -231,6 +235,10 @@ func (maps *trackedMaps) processUnfiltered(ctx context.Context, ef *Filter, filt
 					return fmt.Errorf("%s: unable to filter wrappers bytes value: %w", op, err)
 				}
 				vv := reflect.ValueOf(wrapperspb.BytesValue{Value: s})
+				if fPtr {
+					// the map holds a pointer to the wrapper: keep it a pointer
+					vv = reflect.ValueOf(&wrapperspb.BytesValue{Value: s})
+				}
 				v.SetMapIndex(key, vv)
 
 			case fkind == reflect.Slice:
